@@ -4,6 +4,7 @@ import random
 
 from vlib import xh
 from vlib.common import Run, Stats
+from vlib.shims import SHIM_SOURCE
 
 FUNCS = ["problog.engine_builtin.struct_cmp", "problog.engine_builtin.compare", "problog.engine_builtin._builtin_compare",
          "problog.engine_builtin._builtin_struct_lt/_le/_gt/_ge", "problog.engine_builtin._builtin_same/_builtin_notsame",
@@ -14,19 +15,9 @@ import builtins
 import problog.engine_builtin as eb
 from problog.logic import Term, Constant, Var
 from vlib import order_ref as O
+''' + SHIM_SOURCE + '''
 
 
-def _float(x=0.0):
-    # float(Constant(<symbolic number>)) cannot go through __float__ under CrossHair
-    if type(x) is Constant and not isinstance(x.functor, str):
-        return x.functor      # an int stays an int: struct_cmp only compares the value (exact)
-    return builtins.float(x)
-
-
-def _int(x=0, *a):
-    if type(x) is Constant and not isinstance(x.functor, (float, str)):
-        return x.functor
-    return builtins.int(x, *a)
 
 
 eb.float = _float
